@@ -281,7 +281,8 @@ def gen_notif(rng, version_error=None):
 
 
 def gen_rr(rng):
-    return rp.encode_route_refresh(rng.pick([1, 2]), rng.pick([1, 128, 133]), 0, cisco=rng.chance(0.4))
+    # (the reserved octet carries the RFC 7313 subtype: 0 request, 1 BoRR, 2 EoRR, anything else is to be ignored)
+    return rp.encode_route_refresh(rng.pick([1, 2]), rng.pick([1, 128, 133]), rng.pick([0, 0, 0, 1, 2, 3, 255]), cisco=rng.chance(0.4))
 
 
 def gen_bad_marker(rng):
